@@ -18,6 +18,7 @@ loading in strict mode raises; DON'T-CARE outcomes are counted, never judged.
 from __future__ import annotations
 
 import copy
+import io
 import itertools
 import os
 from typing import Any, Callable, Dict, List, Optional, Tuple
@@ -37,6 +38,7 @@ X_ID = "X"  # the colliding local ID
 def load_world(world: Dict[str, Any]) -> Any:
     from odxtools.database import Database
     d = Database()
+    d.add_auxiliary_file("job.jar", io.BytesIO(b"\x00"))  # the PROG-CODE of the SINGLE-ECU-JOBs
     sd = emit.scratch_dir()
     paths = emit_links.write_world(world, sd)
     try:
@@ -213,6 +215,13 @@ def the_svc(layer: Any) -> Any:
     return layer.diag_layer_raw.diag_comms["s_SV"]
 
 
+def commref_target(layer: Any) -> Any:
+    """the diag comm the (only) DIAG-COMM-REF of the layer was resolved to"""
+    raw = layer.diag_layer_raw
+    idx = [i for i, x in enumerate(raw.diag_comms_raw) if type(x).__name__ == "OdxLinkRef"]
+    return raw.diag_comms[idx[0]]
+
+
 class Kind:
 
     def __init__(self, name: str, target: Callable[..., Dict[str, Any]], source: Callable[[str, Dict[str, Any]], Dict[str, Any]],
@@ -277,7 +286,7 @@ KINDS: List[Kind] = [
          lambda l: rq_param(l).table_key, core=True),
     Kind("dop/LENGTH-KEY-REF", T_lengthkey, lambda L, r: {"ddds": [{"k": "dop", "sn": "s_PL", "id": f"{L}.s_PL", "m": f"{L}/s_PL", "plen": r}]},
          lambda l: raw_ddds(l).data_object_props["s_PL"].diag_coded_type.length_key),
-    Kind("dop/UNIT-REF", T_unit, lambda L, r: {"ddds": [{"k": "dop", "sn": "s_DU", "id": f"{L}.s_DU", "m": f"{L}/s_DU", "unit": r}]},
+    Kind("dop-unit/UNIT-REF", T_unit, lambda L, r: {"ddds": [{"k": "dop", "sn": "s_DU", "id": f"{L}.s_DU", "m": f"{L}/s_DU", "unit": r}]},
          lambda l: raw_ddds(l).data_object_props["s_DU"].unit, core=True),
     Kind("unit/PHYSICAL-DIMENSION-REF", T_physdim, lambda L, r: {"units": [{"sn": "s_U", "id": f"{L}.s_U", "m": f"{L}/s_U", "physdim": r}]},
          lambda l: raw_ddds(l).unit_spec.units["s_U"].physical_dimension),
@@ -339,7 +348,7 @@ KINDS: List[Kind] = [
     Kind("service/DISABLED-AUDIENCE-REF", T_audience, lambda L, r: svc(L, audience={"disabled": [r]}),
          lambda l: the_svc(l).audience.disabled_audiences[0]),
     Kind("diag-comms/DIAG-COMM-REF", T_service, lambda L, r: {"comms": [{"k": "commref", "ref": r}]},
-         lambda l: l.diag_layer_raw.diag_comms[0], core=True),
+         lambda l: commref_target(l), core=True),
     Kind("job/FUNCT-CLASS-REF", T_fclass, lambda L, r: _job(L, fclasses=[r]), lambda l: l.diag_layer_raw.diag_comms["s_JB"].functional_classes[0]),
     Kind("job-input-param/DOP-BASE-REF", T_dop, lambda L, r: _job(L, inputs=[{"sn": "ip", "m": f"{L}/ip", "dop": r}]),
          lambda l: l.diag_layer_raw.diag_comms["s_JB"].input_params[0].dop),
@@ -432,18 +441,32 @@ def run_id_scenario(sc: Dict[str, Any]) -> Tuple[Tuple[str, str], Optional[Tuple
     return expected, fail, observed
 
 
-def situation_name(sc: Dict[str, Any]) -> str:
-    """stable, value-free name of the (definitions, imports, order) situation"""
-    d = "+".join(sc["defs"]) or "nowhere"
-    i = "+".join(sc["imports"]) or "none"
-    o = ("S-first" if sc.get("s_first") else "R-first") + ("/CB-first" if sc.get("cb_first") else "/CA-first")
-    return f"defs={d}/imports={i}/{o}"
+def observed_marker(observed: str) -> Any:
+    return observed[6:] if observed.startswith("bound:") else None
 
 
-def id_key(sc: Dict[str, Any], mode: str, scope: str) -> str:
+LOC_CLASS = {"T@LR": "own-layer", "T@LS": "sibling-layer", "T@LO": "other-container", "T@LE": "shared-layer"}
+
+
+def loc_class(marker: Any) -> str:
+    if marker is None:
+        return "nothing"
+    return LOC_CLASS.get(marker, "other-object")
+
+
+def id_key(sc: Dict[str, Any], mode: str, scope: str, expected: Tuple[str, str], got: Any) -> str:
+    """finding class: reference family (or the single kind), addressing form, failure mode, where the expected and
+    the actually bound object live relative to the referrer"""
     fam = "idref" if scope == "family" else "idref:" + sc["kind"]
     rt = "" if sc.get("rtype", "BASE-VARIANT") == "BASE-VARIANT" else "/referrer=" + sc["rtype"]
-    return f"C10/{fam}/{sc['form']}/{situation_name(sc)}{rt}/{mode}"
+    exp = loc_class(expected[1]) if expected[0] == "BIND" else "error"
+    return f"C10/{fam}/{sc['form']}{rt}/{mode}/expected={exp}/bound={loc_class(got)}"
+
+
+def describe(sc: Dict[str, Any]) -> str:
+    return (f"referrer LR ({sc.get('rtype', 'BASE-VARIANT')}) in CA, {sc['form']}, ID X defined in {sc['defs'] or 'no layer'}, "
+            f"LE imported by {sc['imports'] or 'nobody'}, " + ("LS before LR" if sc.get("s_first") else "LR before LS") +
+            (", CB loaded first" if sc.get("cb_first") else ""))
 
 
 def id_cells(quick: bool) -> List[Dict[str, Any]]:
@@ -490,36 +513,602 @@ def id_unit(unit: Tuple[List[Dict[str, Any]], List[str]]) -> Part:
         for sc, expected, fail, observed in failed:
             scope = "family" if family_wide else "kind"
             case = {"family": "I", "scope": scope, "sc": sc}
-            part.violation(id_key(sc, fail[0], scope), case, f"{sc['kind']}: {fail[1]} [expected {expected}]")
+            part.violation(id_key(sc, fail[0], scope, expected, observed_marker(observed)), case,
+                           f"{sc['kind']}: {fail[1]} [{describe(sc)}]")
+    return part
+
+
+# ---------------------------------------------------------------------------------------------
+# family (D): references to layers and into comparam documents
+# ---------------------------------------------------------------------------------------------
+PARENT_TYPE = {"PROTOCOL": "ECU-SHARED-DATA", "FUNCTIONAL-GROUP": "ECU-SHARED-DATA", "BASE-VARIANT": "FUNCTIONAL-GROUP",
+               "ECU-VARIANT": "BASE-VARIANT"}
+D_LAYER_FORMS: Dict[str, Optional[Tuple[str, str]]] = {
+    "no-docref": None,
+    "docref-own-layer": ("LR", "LAYER"),
+    "docref-own-container": ("CA", "CONTAINER"),
+    "docref-sibling-layer": ("LS", "LAYER"),
+    "docref-other-container": ("CB", "CONTAINER"),
+    "docref-other-layer": ("LO", "LAYER"),
+    "docref-shared-layer": ("LE", "LAYER"),
+    "docref-shared-container": ("CS", "CONTAINER"),
+    "docref-missing-document": ("NOWHERE", "LAYER"),
+    "docref-wrong-doctype": ("LS", "CONTAINER"),
+}
+SPEC_REF = {"ref": "SID.SPEC0", "doc": ("SPEC0", "COMPARAM-SPEC")}
+SPEC0 = {"sn": "SPEC0", "id": "SID.SPEC0", "m": "spec:SPEC0", "stacks": []}
+
+
+def d_world(sc: Dict[str, Any]) -> Tuple[Dict[str, Any], Dict[str, Any], Callable[[Any], Any]]:
+    """-> (world, probe, observer(database))"""
+    k = sc["kind"]
+    if k in ("parent-ref", "import-ref"):
+        rtype = sc.get("rtype", "BASE-VARIANT")
+        ttype = PARENT_TYPE[rtype] if k == "parent-ref" else "ECU-SHARED-DATA"
+        LR = new_layer("LR", rtype)
+        LS = new_layer("LS", ttype)
+        LO = new_layer("LO", ttype)
+        LE = new_layer("LE", "ECU-SHARED-DATA")
+        byname = {"LS": LS, "LO": LO, "LE": LE}
+        for loc in sc["defs"]:
+            byname[loc]["id"] = "PX"
+        ref: Dict[str, Any] = {"ref": "PX"}
+        doc = D_LAYER_FORMS[sc["form"]]
+        if doc is not None:
+            ref["doc"] = doc
+        world: Dict[str, Any] = {}
+        if rtype == "PROTOCOL":
+            LR["comparam_spec"] = copy.deepcopy(SPEC_REF)
+            world["specs"] = [copy.deepcopy(SPEC0)]
+        if k == "parent-ref":
+            LR["parents"] = [{"ref": ref, "ptype": ttype}]
+            if sc.get("imports"):
+                LR["imports"] = [{"ref": LE["id"], "doc": ("CS", "CONTAINER")}]
+            probe = {"mode": "id", "owner": ("layer", "LR"), "ref": ref}
+
+            def obs(db: Any) -> Any:
+                return db.diag_layers["LR"].diag_layer_raw.parent_refs[0].layer
+        else:
+            # the IMPORT-REF is varied; what it was resolved to is visible through a plain reference to "Y", an ID
+            # that every candidate layer defines
+            LR["imports"] = [ref]
+            for L, l in byname.items():
+                add(l, T_dop(L, "Y", "Y@" + L, "t_Y"))
+            add(LR, KIND["param/DOP-REF"].source("LR", {"ref": "Y"}))
+            probe = {"mode": "id", "owner": ("layer", "LR"), "ref": {"ref": "Y"}}
+
+            def obs(db: Any) -> Any:
+                return rq_param(db.diag_layers["LR"]).dop
+        world["containers"] = [{"sn": "CA", "id": "CID.CA", "m": "container:CA", "layers": [LS, LR] if sc.get("s_first") else [LR, LS]},
+                               {"sn": "CB", "id": "CID.CB", "m": "container:CB", "layers": [LO]},
+                               {"sn": "CS", "id": "CID.CS", "m": "container:CS", "layers": [LE]}]
+        return world, probe, obs
+    # comparam documents
+    docs = {"comparam": ("SUB1", "SUB2", "COMPARAM-SUBSET"), "comparam-spec": ("SPEC1", "SPEC2", "COMPARAM-SPEC"),
+            "comparam-subset": ("SUB1", "SUB2", "COMPARAM-SUBSET"), "comparam-dop": ("SUB1", "SUB2", "COMPARAM-SUBSET")}
+    group = {"layer/COMPARAM-REF": "comparam", "service/COMPARAM-REF": "comparam", "protocol/COMPARAM-SPEC-REF": "comparam-spec",
+             "prot-stack/COMPARAM-SUBSET-REF": "comparam-subset", "comparam/DATA-OBJECT-PROP-REF": "comparam-dop"}[k]
+    d1, d2, dtype = docs[group]
+    forms: Dict[str, Optional[Tuple[str, str]]] = {"no-docref": None, "docref-first-document": (d1, dtype), "docref-second-document": (d2, dtype),
+                                                   "docref-missing-document": ("NOWHERE", dtype),
+                                                   "docref-wrong-doctype": (d1, "CONTAINER"), "docref-layer": ("LR", "LAYER")}
+    ref = {"ref": "QX"}
+    if forms[sc["form"]] is not None:
+        ref["doc"] = forms[sc["form"]]
+    sub = {n: {"sn": n, "id": "UID." + n, "m": "subset:" + n, "comparams": [], "dops": [{"k": "dop", "sn": "cd", "id": n + ".cd", "m": n + "/cd"}]}
+           for n in ("SUB1", "SUB2")}
+    spec = {n: {"sn": n, "id": "SID." + n, "m": "spec:" + n, "stacks": []} for n in ("SPEC1", "SPEC2")}
+    LR = new_layer("LR", "PROTOCOL" if group == "comparam-spec" else "BASE-VARIANT")
+    for n in sc["defs"]:
+        if group == "comparam":
+            sub[n]["comparams"].append({"sn": "t_cp", "id": "QX", "m": "T@" + n, "dop": {"ref": n + ".cd"}})
+        elif group == "comparam-spec":
+            spec[n]["id"] = "QX"
+            spec[n]["m"] = "T@" + n
+        elif group == "comparam-subset":
+            sub[n]["id"] = "QX"
+            sub[n]["m"] = "T@" + n
+        else:
+            sub[n]["dops"].append({"k": "dop", "sn": "t_d", "id": "QX", "m": "T@" + n})
+    owner: Tuple[str, str] = ("layer", "LR")
+    if k == "layer/COMPARAM-REF":
+        LR["comparams"] = [{"ref": ref, "value": "1"}]
+
+        def obs(db: Any) -> Any:
+            return db.diag_layers["LR"].diag_layer_raw.comparam_refs[0].spec
+    elif k == "service/COMPARAM-REF":
+        add(LR, svc("LR", comparams=[{"ref": ref, "value": "1"}]))
+
+        def obs(db: Any) -> Any:
+            return the_svc(db.diag_layers["LR"]).comparam_refs[0].spec
+    elif k == "protocol/COMPARAM-SPEC-REF":
+        LR["comparam_spec"] = ref
+
+        def obs(db: Any) -> Any:
+            return db.diag_layers["LR"].comparam_spec
+    elif k == "prot-stack/COMPARAM-SUBSET-REF":
+        spec["SPEC1"]["stacks"].append({"sn": "ps", "id": "SPEC1.ps", "m": "SPEC1/ps", "subsets": [ref]})
+        owner = ("spec", "SPEC1")
+
+        def obs(db: Any) -> Any:
+            return db.comparam_specs["SPEC1"].prot_stacks[0].comparam_subsets[0]
+    else:
+        sub["SUB1"]["comparams"].append({"sn": "s_cp", "id": "SUB1.s_cp", "m": "SUB1/s_cp", "dop": ref})
+        owner = ("subset", "SUB1")
+
+        def obs(db: Any) -> Any:
+            return db.comparam_subsets["SUB1"].comparams["s_cp"].dop
+    world = {"subsets": [sub["SUB1"], sub["SUB2"]], "specs": [spec["SPEC1"], spec["SPEC2"]],
+             "containers": [{"sn": "CA", "id": "CID.CA", "m": "container:CA", "layers": [LR]}]}
+    if sc.get("reverse"):
+        world["subsets"].reverse()
+        world["specs"].reverse()
+    return world, {"mode": "id", "owner": owner, "ref": ref}, obs
+
+
+D_DOC_KINDS = ["layer/COMPARAM-REF", "service/COMPARAM-REF", "protocol/COMPARAM-SPEC-REF", "prot-stack/COMPARAM-SUBSET-REF",
+               "comparam/DATA-OBJECT-PROP-REF"]
+D_DOC_FORMS = ["no-docref", "docref-first-document", "docref-second-document", "docref-missing-document", "docref-wrong-doctype", "docref-layer"]
+
+
+def subsets_of(xs: List[str]) -> List[List[str]]:
+    return [list(c) for n in range(len(xs) + 1) for c in itertools.combinations(xs, n)]
+
+
+def d_scenarios() -> List[Dict[str, Any]]:
+    out: List[Dict[str, Any]] = []
+    for rtype in PARENT_TYPE:
+        for form in D_LAYER_FORMS:
+            for defs in subsets_of(["LS", "LO", "LE"]):
+                for s_first in (False, True):
+                    for imp in (False, True):
+                        out.append({"kind": "parent-ref", "rtype": rtype, "form": form, "defs": defs, "s_first": s_first, "imports": imp})
+    for form in D_LAYER_FORMS:
+        for defs in subsets_of(["LS", "LO", "LE"]):
+            for s_first in (False, True):
+                out.append({"kind": "import-ref", "form": form, "defs": defs, "s_first": s_first})
+    for k in D_DOC_KINDS:
+        two = ["SPEC1", "SPEC2"] if k == "protocol/COMPARAM-SPEC-REF" else ["SUB1", "SUB2"]
+        for form in D_DOC_FORMS:
+            for defs in subsets_of(two):
+                for rev in (False, True):
+                    out.append({"kind": k, "form": form, "defs": defs, "reverse": rev})
+    return out
+
+
+def run_d_scenario(sc: Dict[str, Any]) -> Tuple[Tuple[str, str], Optional[Tuple[str, str]], str]:
+    world, probe, obs = d_world(sc)
+    expected = reflinks.Model(world).expect(probe)
+    db, err = try_load(world)
+    got = None
+    if db is not None:
+        try:
+            got = marker_of(obs(db))
+        except Exception as e:  # noqa: BLE001
+            got = f"<unobservable: {type(e).__name__}: {e}>"
+    fail = judge(expected, db is not None, got, err)
+    observed = ("bound:" + str(got)) if db is not None else ("raised:" + type(err).__name__)
+    return expected, fail, observed
+
+
+def marker_class(m: Any) -> str:
+    if m is None:
+        return "nothing"
+    m = str(m)
+    for suffix, name in (("LR", "own-layer"), ("LS", "sibling-layer"), ("LO", "other-container"), ("LE", "shared-layer"),
+                         ("SUB1", "first-document"), ("SUB2", "second-document"), ("SPEC1", "first-document"), ("SPEC2", "second-document")):
+        if m.endswith("@" + suffix) or m.endswith(":" + suffix):
+            return name
+    return "other-object"
+
+
+def d_key(sc: Dict[str, Any], mode: str, expected: Tuple[str, str], got: Any) -> str:
+    rt = "/referrer=" + sc["rtype"] if sc.get("rtype") else ""
+    exp = marker_class(expected[1]) if expected[0] == "BIND" else "error"
+    return f"C10/idref:{sc['kind']}/{sc['form']}{rt}/{mode}/expected={exp}/bound={marker_class(got)}"
+
+
+def d_unit(scs: List[Dict[str, Any]]) -> Part:
+    part = Part()
+    for sc in scs:
+        expected, fail, observed = run_d_scenario(sc)
+        part.count("evaluations")
+        part.count("layer_and_comparam_scenarios")
+        part.count("expect_" + expected[0].lower())
+        part.add("outcome_classes", (expected[0], observed.split(":")[0]))
+        if observed.startswith("raised:"):
+            part.add("exception_types", observed[7:])
+        part.add("nontrivial", digest((sc["kind"], sc["form"], sc["defs"], sc.get("rtype"), expected[0], observed.split(":")[0])))
+        if fail is not None:
+            part.violation(d_key(sc, fail[0], expected, observed_marker(observed)), {"family": "D", "sc": sc},
+                           f"{sc['kind']}: {fail[1]} [{sc}]")
+    return part
+
+
+# ---------------------------------------------------------------------------------------------
+# family (S): SNREF scenarios and retarget_snrefs
+# ---------------------------------------------------------------------------------------------
+# hierarchy: LG (FUNCTIONAL-GROUP, container CB) <- LP (BASE-VARIANT, CA) <- LR, LS (ECU-VARIANTs, CA); LO (BASE-VARIANT, CB)
+# unrelated; LE (ECU-SHARED-DATA, CS) optionally imported by the owner of the reference
+S_LOCS = ["LR", "LP", "LG", "LS", "LO", "LE"]
+S_KINDS: Dict[str, Tuple[str, str]] = {
+    # name -> (KINDS entry providing source / target / observer, reflinks SNREF kind)
+    "param/DOP-SNREF": ("param/DOP-REF", "dop"),
+    "struct-param/DOP-SNREF": ("struct-param/DOP-REF", "dop"),
+    "length-key/DOP-SNREF": ("length-key/DOP-REF", "dop"),
+    "table-key/TABLE-SNREF": ("table-key/TABLE-REF", "table"),
+    "mux-case/STRUCTURE-SNREF": ("mux-case/STRUCTURE-REF", "struct"),
+    "mux-default-case/STRUCTURE-SNREF": ("mux-default-case/STRUCTURE-REF", "struct"),
+    "table-row/STRUCTURE-SNREF": ("table-row/STRUCTURE-REF", "struct"),
+    "table-row/DATA-OBJECT-PROP-SNREF": ("table-row/DATA-OBJECT-PROP-REF", "rowdop"),
+    "static-field/BASIC-STRUCTURE-SNREF": ("static-field/BASIC-STRUCTURE-REF", "basicstruct"),
+    "dynamic-length-field/BASIC-STRUCTURE-SNREF": ("dynamic-length-field/BASIC-STRUCTURE-REF", "basicstruct"),
+    "dynamic-endmarker-field/BASIC-STRUCTURE-SNREF": ("dynamic-endmarker-field/BASIC-STRUCTURE-REF", "basicstruct"),
+    "end-of-pdu-field/BASIC-STRUCTURE-SNREF": ("end-of-pdu-field/BASIC-STRUCTURE-REF", "basicstruct"),
+    "end-of-pdu-field/ENV-DATA-DESC-SNREF": ("end-of-pdu-field/ENV-DATA-DESC-REF", "envdesc"),
+    "table-diag-comm-connector/DIAG-COMM-SNREF": ("table-diag-comm-connector/DIAG-COMM-REF", "diagcomm"),
+}
+NI_OF = {"dop": "dops", "struct": "dops", "rowdop": "dops", "basicstruct": "dops", "envdesc": "dops", "table": "tables", "diagcomm": "comms"}
+# objects of every DDDS kind (and a service) named N, for the "reference names an object of another kind" scenarios
+OTHER_TARGETS: Dict[str, Callable[..., Dict[str, Any]]] = {
+    "dop": T_dop, "struct": T_struct, "table": T_table, "envdata": T_envdata, "envdesc": T_envdesc, "dtcdop": T_dtcdop, "service": T_service,
+    "mux": lambda L, i, m, sn: {"ddds": [aux_dop(L, "t_md"), {"k": "mux", "sn": sn, "id": i, "m": m, "key_dop": lref(L, "t_md"), "cases": []}]},
+    "sfield": lambda L, i, m, sn: {"ddds": [{"k": "struct", "sn": "t_fs", "id": f"{L}.t_fs", "m": f"{L}/t_fs", "params": []},
+                                            {"k": "sfield", "sn": sn, "id": i, "m": m, "of": lref(L, "t_fs")}]},
+}
+
+
+def s_hierarchy() -> Dict[str, Dict[str, Any]]:
+    LG = new_layer("LG", "FUNCTIONAL-GROUP")
+    LP = new_layer("LP", "BASE-VARIANT")
+    LP["parents"] = [{"ref": {"ref": "LID.LG", "doc": ("CB", "CONTAINER")}, "ptype": "FUNCTIONAL-GROUP"}]
+    LR = new_layer("LR", "ECU-VARIANT")
+    LR["parents"] = [{"ref": {"ref": "LID.LP"}, "ptype": "BASE-VARIANT"}]
+    LS = new_layer("LS", "ECU-VARIANT")
+    LS["parents"] = [{"ref": {"ref": "LID.LP", "doc": ("LP", "LAYER")}, "ptype": "BASE-VARIANT"}]
+    LO = new_layer("LO", "BASE-VARIANT")
+    LE = new_layer("LE", "ECU-SHARED-DATA")
+    return {"LG": LG, "LP": LP, "LR": LR, "LS": LS, "LO": LO, "LE": LE}
+
+
+def s_assemble(L: Dict[str, Dict[str, Any]]) -> Dict[str, Any]:
+    return {"containers": [{"sn": "CA", "id": "CID.CA", "m": "container:CA", "layers": [L["LP"], L["LR"], L["LS"]]},
+                           {"sn": "CB", "id": "CID.CB", "m": "container:CB", "layers": [L["LG"], L["LO"]]},
+                           {"sn": "CS", "id": "CID.CS", "m": "container:CS", "layers": [L["LE"]]}]}
+
+
+def s_world(sc: Dict[str, Any]) -> Tuple[Dict[str, Any], Dict[str, Any], Callable[[Any], Any]]:
+    """sc: {"kind", "owner": "LR"|"LP", "defs": [loc..], "ni": [layer whose PARENT-REF excludes N..], "import": bool,
+            "as": other object kind (optional: N is defined as that kind instead), "dup": bool}"""
+    base, snkind = S_KINDS[sc["kind"]]
+    kind = KIND[base]
+    L = s_hierarchy()
+    owner = sc["owner"]
+    tgt = OTHER_TARGETS[sc["as"]] if sc.get("as") else kind.target
+    for loc in sc["defs"]:
+        add(L[loc], tgt(loc, f"{loc}.N", "N@" + loc, "N"))
+    if sc.get("dup"):
+        d = tgt(owner, f"{owner}.N2", "N2@" + owner, "N")
+        # only the object named N itself is duplicated, not its auxiliary objects
+        for key, objs in d.items():
+            L[owner].setdefault(key, []).extend(o for o in objs if o.get("sn") == "N")
+    for l in sc.get("ni", []):
+        L[l]["parents"][0]["ni"] = {NI_OF.get(snkind, "dops") if not sc.get("as") else
+                                    ("tables" if sc["as"] == "table" else "comms" if sc["as"] == "service" else "dops"): ["N"]}
+    if sc.get("import"):
+        L[owner]["imports"] = [copy.deepcopy(IMPORT_REF)]
+    add(L[owner], kind.source(owner, {"snref": "N"}))
+    probe = {"mode": "sn", "owner": owner, "kind": snkind, "name": "N"}
+
+    def obs(db: Any) -> Any:
+        return kind.observe(db.diag_layers[owner])
+    return s_assemble(L), probe, obs
+
+
+def s2_world(sc: Dict[str, Any]) -> Tuple[Dict[str, Any], Dict[str, Any], Callable[[Any], Any]]:
+    """SNREFs whose context is not the layer's inherited dictionary: TABLE-KEY-SNREF (parameter list), TABLE-ROW-SNREF
+    (rows of the table), PROT-STACK-SNREF (stacks of the comparam spec), PROTOCOL-SNREF (protocols among the ancestors)"""
+    k = sc["kind"]
+    L = s_hierarchy()
+    owner = sc.get("owner", "LR")
+    world_extra: Dict[str, Any] = {}
+    if k == "table-struct/TABLE-KEY-SNREF":
+        add(L[owner], T_row(owner, f"{owner}.row", f"{owner}/row", "row"))
+
+        def tk(sn: str, n: int) -> Dict[str, Any]:
+            return {"t": "TABLE-KEY", "sn": sn, "id": f"{owner}.tk{n}", "m": f"key{n}", "table": lref(owner, "t_tab")}
+        sit = sc["situation"]
+        ts = {"t": "TABLE-STRUCT", "sn": "p", "m": "p", "key": {"snref": "K"}}
+        other = [CC, tk("K", 9)]
+        plist = {"unique": [CC, tk("K", 1), ts], "missing": [CC, tk("Z", 1), ts], "ambiguous": [CC, tk("K", 1), tk("K", 2), ts],
+                 "wrong-type": [CC, {"t": "VALUE", "sn": "K", "m": "value", "dop": lref(owner, "t_kd")}, ts],
+                 "only-in-other-list": [CC, ts], "key-after-struct": [CC, ts, tk("K", 1)],
+                 "same-name-in-other-list": [CC, tk("K", 1), ts]}[sit]
+        where = sc["where"]
+        if where == "request":
+            add(L[owner], {"requests": [{"sn": "s_RQ", "id": f"{owner}.s_RQ", "m": "s_RQ", "params": plist},
+                                        {"sn": "o_RQ", "id": f"{owner}.o_RQ", "m": "o_RQ", "params": other}]})
+
+            def obs(db: Any) -> Any:
+                return db.diag_layers[owner].diag_layer_raw.requests["s_RQ"].parameters["p"].table_key
+        elif where == "response":
+            add(L[owner], {"posresps": [{"sn": "s_RS", "id": f"{owner}.s_RS", "m": "s_RS", "params": plist}],
+                           "requests": [{"sn": "o_RQ", "id": f"{owner}.o_RQ", "m": "o_RQ", "params": other}]})
+
+            def obs(db: Any) -> Any:
+                return db.diag_layers[owner].diag_layer_raw.positive_responses["s_RS"].parameters["p"].table_key
+        else:
+            add(L[owner], {"ddds": [{"k": "struct", "sn": "s_ST", "id": f"{owner}.s_ST", "m": "s_ST", "params": plist[1:]}],
+                           "requests": [{"sn": "o_RQ", "id": f"{owner}.o_RQ", "m": "o_RQ", "params": other}]})
+
+            def obs(db: Any) -> Any:
+                return raw_ddds(db.diag_layers[owner]).structures["s_ST"].parameters["p"].table_key
+        probe = {"mode": "sn", "owner": owner, "kind": "tablekey", "name": "K", "params": plist if where != "structure" else plist[1:]}
+        return s_assemble(L), probe, obs
+    if k == "table-key/TABLE-ROW-SNREF":
+        # tables named TB in the owner and (optionally) in other layers; rows per situation
+        sit = sc["situation"]
+
+        def table(Lname: str, rows: List[str]) -> Dict[str, Any]:
+            return {"ddds": [aux_dop(Lname, "t_kd"),
+                             {"k": "table", "sn": "TB", "id": f"{Lname}.TB", "m": f"TB@{Lname}", "key_dop": lref(Lname, "t_kd"),
+                              "rows": [{"sn": r, "id": f"{Lname}.TB.{i}", "m": f"row{i}:{r}@{Lname}", "key": i, "dop": lref(Lname, "t_kd")}
+                                       for i, r in enumerate(rows)]}]}
+        rows = {"unique": ["A", "ROW", "B"], "missing": ["A", "B"], "ambiguous": ["ROW", "A", "ROW"]}[sit]
+        for loc in sc["tables"]:
+            add(L[loc], table(loc, rows if loc == sc["tables"][0] else ["ROW", "C"]))
+        if sc.get("other_table_has_row"):
+            add(L[owner], {"ddds": [{"k": "table", "sn": "TB2", "id": f"{owner}.TB2", "m": f"TB2@{owner}", "key_dop": lref(sc["tables"][0], "t_kd")
+                                     if sc["tables"][0] == owner else None,
+                                     "rows": [{"sn": "ROW", "id": f"{owner}.TB2.0", "m": "row:ROW@TB2", "key": 0, "struct": None}]}]})
+        tref = {"snref": "TB"} if sc["table_by"] == "snref" else {"ref": f"{sc['tables'][0]}.TB", "doc": (sc["tables"][0], "LAYER")}
+        add(L[owner], S_rq(owner, [{"t": "TABLE-KEY", "sn": "p", "id": f"{owner}.s_tk", "m": "p", "table": tref, "row": {"snref": "ROW"}}]))
+        probe = {"mode": "sn", "owner": owner, "kind": "tablerow", "name": "ROW", "table": tref}
+
+        def obs(db: Any) -> Any:
+            return rq_param(db.diag_layers[owner]).table_row
+        return s_assemble(L), probe, obs
+    if k == "protocol/PROT-STACK-SNREF":
+        stacks = {"unique": ["A", "PS"], "missing": ["A"], "ambiguous": ["PS", "PS"]}[sc["situation"]]
+        spec = {"sn": "SPEC0", "id": "SID.SPEC0", "m": "spec:SPEC0",
+                "stacks": [{"sn": s, "id": f"SPEC0.ps{i}", "m": f"stack{i}:{s}", "subsets": []} for i, s in enumerate(stacks)]}
+        spec2 = {"sn": "SPEC9", "id": "SID.SPEC9", "m": "spec:SPEC9", "stacks": [{"sn": "PS", "id": "SPEC9.ps", "m": "stack:PS@SPEC9", "subsets": []}]}
+        PR = new_layer("PR", "PROTOCOL")
+        PR["comparam_spec"] = copy.deepcopy(SPEC_REF)
+        PR["prot_stack"] = "PS"
+        world = s_assemble(L)
+        world["containers"][0]["layers"].append(PR)
+        world["specs"] = [spec2, spec] if sc.get("reverse") else [spec, spec2]
+        probe = {"mode": "sn", "owner": "PR", "kind": "protstack", "name": "PS"}
+
+        def obs(db: Any) -> Any:
+            return db.diag_layers["PR"].prot_stack
+        return world, probe, obs
+    if k == "service/PROTOCOL-SNREF":
+        # PROTOCOL layers: PA is (or is not) an ancestor of the owner; PB never is
+        PA = new_layer("PA", "PROTOCOL")
+        PA["comparam_spec"] = copy.deepcopy(SPEC_REF)
+        PB = new_layer("PB", "PROTOCOL")
+        PB["comparam_spec"] = copy.deepcopy(SPEC_REF)
+        if sc["situation"] == "ancestor":
+            L["LG"]["parents"] = [{"ref": {"ref": "LID.PA", "doc": ("CA", "CONTAINER")}, "ptype": "PROTOCOL"}]
+        name = {"ancestor": "PA", "not-an-ancestor": "PA", "missing": "PZ", "not-a-protocol": "LP"}[sc["situation"]]
+        add(L[owner], svc(owner, protocols=[name]))
+        world = s_assemble(L)
+        world["containers"][0]["layers"] += [PA, PB]
+        world["specs"] = [copy.deepcopy(SPEC0)]
+        probe = {"mode": "sn", "owner": owner, "kind": "protocol", "name": name}
+
+        def obs(db: Any) -> Any:
+            return the_svc(db.diag_layers[owner]).protocols[0]
+        return world, probe, obs
+    raise ValueError(k)
+
+
+def s_scenarios(quick: bool) -> List[Dict[str, Any]]:
+    out: List[Dict[str, Any]] = []
+    for kind in S_KINDS:
+        for owner in ("LR", "LP"):
+            for defs in subsets_of(S_LOCS):
+                for ni in ([], ["LR"], ["LP"], ["LR", "LP"]):
+                    for imp in (False, True):
+                        if quick and imp and "LE" not in defs:
+                            continue  # an import can only matter if the shared layer defines N
+                        out.append({"fam": "S", "kind": kind, "owner": owner, "defs": defs, "ni": ni, "import": imp})
+        # N names an object of another kind, in the owner / its parent; N twice in the owner
+        for owner in ("LR", "LP"):
+            parent = {"LR": "LP", "LP": "LG"}[owner]
+            for other in OTHER_TARGETS:
+                for defs in ([owner], [parent], [owner, parent]):
+                    out.append({"fam": "S", "kind": kind, "owner": owner, "defs": defs, "ni": [], "import": False, "as": other})
+            for defs in ([owner], [owner, parent]):
+                out.append({"fam": "S", "kind": kind, "owner": owner, "defs": defs, "ni": [], "import": False, "dup": True})
+    # a DOP and an object of another DOP-BASE kind with the same name, both in the owner: handled via "as" + a second definition
+    for owner in ("LR", "LP"):
+        for where in ("request", "response", "structure"):
+            for sit in ("unique", "missing", "ambiguous", "wrong-type", "only-in-other-list", "key-after-struct", "same-name-in-other-list"):
+                out.append({"fam": "S2", "kind": "table-struct/TABLE-KEY-SNREF", "owner": owner, "where": where, "situation": sit})
+        for sit in ("unique", "missing", "ambiguous"):
+            for table_by in ("idref", "snref"):
+                for tables in ([owner], ["LP"], ["LP", "LR"], ["LG"], ["LR", "LS"], ["LP", "LR", "LS"], ["LG", "LR"]):
+                    if table_by == "idref" and tables[0] not in (owner, "LP", "LG"):
+                        continue
+                    out.append({"fam": "S2", "kind": "table-key/TABLE-ROW-SNREF", "owner": owner, "situation": sit, "table_by": table_by,
+                                "tables": tables})
+        for sit in ("ancestor", "not-an-ancestor", "missing", "not-a-protocol"):
+            out.append({"fam": "S2", "kind": "service/PROTOCOL-SNREF", "owner": owner, "situation": sit})
+    for sit in ("unique", "missing", "ambiguous"):
+        for rev in (False, True):
+            out.append({"fam": "S2", "kind": "protocol/PROT-STACK-SNREF", "situation": sit, "reverse": rev})
+    return out
+
+
+def rel_class(owner: str, marker: Any) -> str:
+    """where the bound object lives relative to the owner of the reference"""
+    if marker is None:
+        return "nothing"
+    m = str(marker)
+    if "@" not in m:
+        return "object"
+    loc = m.rsplit("@", 1)[1]
+    order = ["LR", "LP", "LG"] if owner == "LR" else ["LP", "LG"]
+    if loc == owner:
+        return "own-layer"
+    if loc in order:
+        return ["own-layer", "parent", "grandparent"][order.index(loc)]
+    if loc in ("LR", "LS") and owner == "LP":
+        return "child"
+    return {"LS": "sibling", "LO": "unrelated-layer", "LE": "shared-layer"}.get(loc, "other:" + loc)
+
+
+RETARGETS = ["LR", "LS", "LP", "LO"]
+
+
+def run_s_scenario(sc: Dict[str, Any]) -> List[Tuple[str, Tuple[str, str], Optional[Tuple[str, str]], str]]:
+    """-> [(phase, expected, failure, observed)] for phase "load" and "retarget:<layer>" / "restore:<layer>" """
+    import odxtools.exceptions as oe
+    from odxtools.utils import retarget_snrefs
+    build = s_world if sc["fam"] == "S" else s2_world
+    world, probe, obs = build(sc)
+    model = reflinks.Model(world)
+    results = []
+
+    def look(db: Any) -> Any:
+        try:
+            return marker_of(obs(db))
+        except Exception as e:  # noqa: BLE001
+            return f"<unobservable: {type(e).__name__}: {e}>"
+
+    expected = model.expect(probe)
+    db, err = try_load(world)
+    got = look(db) if db is not None else None
+    results.append(("load", expected, judge(expected, db is not None, got, err),
+                    ("bound:" + str(got)) if db is not None else ("raised:" + type(err).__name__)))
+    if db is None:
+        return results
+    owner = probe["owner"]
+    for target in RETARGETS:
+        if target not in model.layers:
+            continue
+        db2, err2 = (db, None) if target == RETARGETS[0] else try_load(world)
+        if db2 is None:
+            continue
+        old = oe.strict_mode
+        oe.strict_mode = True
+        try:
+            for phase, tgt in (("retarget", target), ("restore", owner)):
+                exp = model.expect_retargeted(probe, tgt) if phase == "retarget" else model.snref(owner, probe)
+                e2: Optional[BaseException] = None
+                try:
+                    retarget_snrefs(db2, db2.diag_layers[tgt])
+                except Exception as e:  # noqa: BLE001
+                    e2 = e
+                in_scope = owner in model.retarget_scope(tgt)
+                if e2 is not None and not in_scope and exp[0] == "BIND":
+                    # a failure caused by another layer's references is not about this probe
+                    exp = ("DONTCARE", "retargeting failed outside the probe's scope")
+                g = look(db2) if e2 is None else None
+                results.append((f"{phase}:{rel_class(owner, 'x@' + tgt)}", exp, judge(exp, e2 is None, g, e2),
+                                ("bound:" + str(g)) if e2 is None else ("raised:" + type(e2).__name__)))
+                if e2 is not None:
+                    break
+        finally:
+            oe.strict_mode = old
+    return results
+
+
+def s_key(sc: Dict[str, Any], phase: str, mode: str, expected: Tuple[str, str], got: Any) -> str:
+    owner = sc.get("owner", "PR")
+    exp = rel_class(owner, expected[1]) if expected[0] == "BIND" else "error"
+    sit = "/" + sc["situation"] if sc.get("situation") else ""
+    if sc.get("as"):
+        sit += "/names-a-" + sc["as"]
+    if sc.get("dup"):
+        sit += "/duplicate-name"
+    ph = "" if phase == "load" else "/after-" + phase
+    return f"C10/snref:{sc['kind']}{sit}{ph}/{mode}/expected={exp}/bound={rel_class(owner, got)}"
+
+
+def s_unit(scs: List[Dict[str, Any]]) -> Part:
+    part = Part()
+    for sc in scs:
+        for phase, expected, fail, observed in run_s_scenario(sc):
+            part.count("evaluations")
+            part.count("snref_load_checks" if phase == "load" else "snref_retarget_checks")
+            part.count("expect_" + expected[0].lower())
+            part.add("outcome_classes", (expected[0], observed.split(":")[0]))
+            if phase != "load":
+                part.add("retarget_outcome_classes", (phase.split(":")[0], expected[0], observed.split(":")[0]))
+            if observed.startswith("raised:"):
+                part.add("exception_types", observed[7:])
+            part.add("nontrivial", digest((sc["kind"], sc.get("owner"), sc.get("defs"), sc.get("ni"), sc.get("situation"), sc.get("as"),
+                                           phase, expected[0], observed.split(":")[0])))
+            if fail is not None:
+                part.violation(s_key(sc, phase, fail[0], expected, observed_marker(observed)), {"family": "S", "sc": sc},
+                               f"{sc['kind']} [{phase}]: {fail[1]} [{sc}]")
     return part
 
 
 # ---------------------------------------------------------------------------------------------
 # run / replay
 # ---------------------------------------------------------------------------------------------
+def chunks(xs: List[Any], n: int) -> List[List[Any]]:
+    return [xs[i::n] for i in range(n) if xs[i::n]]
+
+
 def run(ctx: Ctx) -> None:
     kinds = [k.name for k in KINDS]
     cells = id_cells(ctx.quick)
+    dscs = d_scenarios()
+    sscs = s_scenarios(ctx.quick)
     ctx.bounds = {"odxlink": {"kinds": kinds, "forms": list(FORMS), "definition_locations": LOCS, "importers": IMPORTERS,
-                              "cells": len(cells)}}
-    ctx.rule = ("one database per scenario; non-trivial = distinct (reference kind, addressing form, definition set, import set, "
-                "expected verdict, observed class) combinations")
+                              "cells": len(cells), "scenarios": len(cells) * len(kinds)},
+                  "layers_and_comparam_documents": {"kinds": ["parent-ref", "import-ref"] + D_DOC_KINDS, "scenarios": len(dscs)},
+                  "snref": {"kinds": list(S_KINDS) + ["table-struct/TABLE-KEY-SNREF", "table-key/TABLE-ROW-SNREF",
+                                                      "protocol/PROT-STACK-SNREF", "service/PROTOCOL-SNREF"],
+                            "definition_locations": S_LOCS, "scenarios": len(sscs), "retarget_targets": RETARGETS}}
+    ctx.rule = ("one database per scenario; non-trivial = distinct (reference kind, addressing form / owner, definition set, import "
+                "set, situation, phase, expected verdict, observed class) combinations")
     ctx.assumptions = ["layer SHORT-NAMEs are unique in the database (ISO 22901-1 7.3.2.1)",
-                       "any exception raised by the loader in strict mode counts as 'raises an error'"]
-    n = 24
-    units = [(cells[i::n * 4], kinds) for i in range(n * 4)]
-    pmap(ctx, id_unit, [u for u in units if u[0]])
+                       "any exception raised by the loader / retarget_snrefs in strict mode counts as 'raises an error'",
+                       "DON'T-CARE (counted, not judged): duplicate IDs inside one document fragment; DOCREF to an importing layer "
+                       "for an ID it only imports; IDs imported by an ancestor; SNREF to a name offered by an imported layer; same "
+                       "short name in several DOP-BASE collections when one of them is inherited"]
+    pmap(ctx, d_unit, chunks(dscs, 32))
+    pmap(ctx, s_unit, chunks(sscs, 96))
+    pmap(ctx, id_unit, [(c, kinds) for c in chunks(cells, 96)])
     oc = ctx.sets.get("outcome_classes", set())
     ctx.guard("references that must bind and do bind were seen", ("BIND", "bound") in oc)
     ctx.guard("references that must fail and do fail were seen", ("FAIL", "raised") in oc)
-    ctx.guard("don't-care scenarios were seen (duplicate IDs in one container)", any(o[0] == "DONTCARE" for o in oc))
+    ctx.guard("don't-care scenarios were seen", any(o[0] == "DONTCARE" for o in oc))
+    roc = ctx.sets.get("retarget_outcome_classes", set())
+    ctx.guard("retargeting rebinds and also fails where it must", ("retarget", "BIND", "bound") in roc and ("retarget", "FAIL", "raised") in roc)
+    for sc in ({"kind": "param/DOP-REF", "form": "no-docref", "defs": ["LR", "LS", "LO", "LE"], "imports": ["LS"], "s_first": True, "cb_first": False},
+               {"kind": "table-key/TABLE-ROW-REF", "form": "docref-other-layer", "defs": ["LR", "LO"], "imports": [], "s_first": False, "cb_first": False}):
+        exp, _, obs = run_id_scenario(sc)
+        ctx.sample({"scenario": sc, "expected": list(exp), "observed": obs})
+    sc2 = {"fam": "S", "kind": "param/DOP-SNREF", "owner": "LP", "defs": ["LR", "LP", "LG"], "ni": [], "import": False}
+    ctx.sample({"scenario": sc2, "phases": [[ph, list(e), o] for ph, e, _, o in run_s_scenario(sc2)]})
+    sc3 = {"kind": "parent-ref", "rtype": "ECU-VARIANT", "form": "docref-other-container", "defs": ["LS", "LO"], "s_first": False, "imports": False}
+    exp, _, obs = run_d_scenario(sc3)
+    ctx.sample({"scenario": sc3, "expected": list(exp), "observed": obs})
 
 
 def replay(case: Any) -> List[Tuple[str, str]]:
     out: List[Tuple[str, str]] = []
-    if case.get("family") == "I":
-        sc = case["sc"]
+    fam = case.get("family")
+    sc = case["sc"]
+    if fam == "I":
         expected, fail, observed = run_id_scenario(sc)
         if fail is not None:
-            out.append((id_key(sc, fail[0], case.get("scope", "kind")), f"{sc['kind']}: {fail[1]} [expected {expected}]"))
+            out.append((id_key(sc, fail[0], case.get("scope", "kind"), expected, observed_marker(observed)),
+                        f"{sc['kind']}: {fail[1]} [{describe(sc)}]"))
+    elif fam == "D":
+        expected, fail, observed = run_d_scenario(sc)
+        if fail is not None:
+            out.append((d_key(sc, fail[0], expected, observed_marker(observed)), f"{sc['kind']}: {fail[1]} [{sc}]"))
+    elif fam == "S":
+        for phase, expected, fail, observed in run_s_scenario(sc):
+            if fail is not None:
+                out.append((s_key(sc, phase, fail[0], expected, observed_marker(observed)), f"{sc['kind']} [{phase}]: {fail[1]} [{sc}]"))
     return out
